@@ -59,7 +59,7 @@ def library_designs(widths=(1, 2, 3), rng=None, frac=1.0):
 HOSTILE = ['a', 'w_a', 'clk', 'reg', 'wire', 'input', 'module', 'signed', 'begin', 'i_a', 'q', 'r', 'output', 'b']
 
 
-def composite(rng, hostile=False):
+def composite(rng, hostile=False, alias=False):
     """a structural top with 3-6 children: library blocks, fan-out, feedback through a register, repeated kinds with
     different optional ports, optionally hostile names"""
     import py4hw
@@ -104,6 +104,8 @@ def composite(rng, hostile=False):
         kind = rng.choice(kinds)
         x = rng.choice(pool)
         y = rng.choice(pool)
+        if not alias and y is x and len(pool) > 1:
+            y = rng.choice([p_ for p_ in pool if p_ is not x])      # two ports of one instance on one wire only when asked for
         iname = nm('u%d' % k)
         r = wire('t%d' % k)
         try:
